@@ -63,6 +63,7 @@ type world struct {
 	ring    int
 	senders []gen.PID
 	gates   map[gen.PID]chan struct{}
+	zombies map[gen.PID]chan struct{} // killed while parked in a handler and still parked: registered, not alive
 	items   map[int]*item
 	order   []int
 	nextID  int
@@ -114,12 +115,15 @@ func startWorld(t *rapid.T, size int, mbox int64, nsenders int, spinNs int64) (*
 		t.Fatalf("start node: %v", err)
 	}
 	w := &world{t: t, node: node, probe: kit.NewProbe(), M: mbox, ring: size,
-		gates: map[gen.PID]chan struct{}{}, items: map[int]*item{}}
+		gates: map[gen.PID]chan struct{}{}, zombies: map[gen.PID]chan struct{}{}, items: map[int]*item{}}
 	cleanup := func() {
 		for _, ch := range w.gates {
 			close(ch)
 		}
-		w.gates = map[gen.PID]chan struct{}{}
+		for _, ch := range w.zombies {
+			close(ch)
+		}
+		w.gates, w.zombies = map[gen.PID]chan struct{}{}, map[gen.PID]chan struct{}{}
 		node.StopForce()
 	}
 	w.replier, err = node.Spawn(replierFactory(w.probe), gen.ProcessOptions{})
@@ -223,6 +227,9 @@ func (w *world) settle() {
 		}
 		for _, p := range w.workers() {
 			if _, parked := w.gates[p]; parked {
+				continue
+			}
+			if _, zombie := w.zombies[p]; zombie {
 				continue
 			}
 			if !kit.Quiesced(w.node, p) {
@@ -452,6 +459,11 @@ func (w *world) waitDead(pid gen.PID) {
 }
 
 func (w *world) finish() {
+	for p, ch := range w.zombies {
+		close(ch)
+		delete(w.zombies, p)
+		w.waitDead(p)
+	}
 	// open every gate: what was queued behind parked workers is handled now
 	for _, p := range w.parkedList() {
 		close(w.gates[p])
@@ -581,8 +593,15 @@ func TestModel(t *testing.T) {
 				if ch, parked := w.gates[p]; parked {
 					w.lostOK += w.queued(p)
 					w.node.Kill(p)
-					close(ch)
 					delete(w.gates, p)
+					if rapid.Bool().Draw(t, "stays-in-handler") {
+						// killed, but its handler has not returned yet: it is dead for the ring
+						// (nothing may be handed to it any more) while it is still registered
+						w.zombies[p] = ch
+						w.logf("kill-busy(%s)", p)
+						continue
+					}
+					close(ch)
 				} else {
 					w.node.Kill(p)
 				}
